@@ -6,7 +6,9 @@ use crate::base_packet::{
     MCTPMessageBody, MCTPMessageBodyHeader, MCTPTransportHeader, MessageType,
 };
 use crate::control_packet::CommandCode;
-use crate::smbus_proto::{HDR_VERSION, MCTP_SMBUS_COMMAND_CODE, MCTPSMBusHeader, MCTPSMBusPacket};
+use crate::smbus_proto::{
+    HDR_VERSION, MAX_MESSAGE_BODY_LEN, MCTP_SMBUS_COMMAND_CODE, MCTPSMBusHeader, MCTPSMBusPacket,
+};
 
 /// The standard trait for all MCTP headers
 pub(crate) trait MCTPHeader {
@@ -143,6 +145,11 @@ pub trait SMBusMCTPRequestResponse {
 
         let body = MCTPMessageBody::new(&header, *message_header, message_data, None);
 
+        if body.len() > MAX_MESSAGE_BODY_LEN {
+            // Too large for the one byte SMBus byte count
+            return Err(());
+        }
+
         let packet = MCTPSMBusPacket::new(&mut smbus_header, &base_header, &body);
 
         Ok(packet.to_raw_bytes(buf))
@@ -163,6 +170,11 @@ pub trait SMBusMCTPRequestResponse {
             MCTPMessageBodyHeader::new(false, MessageType::VendorDefinedPCI);
 
         let body = MCTPMessageBody::new(&header, *message_header, message_data, None);
+
+        if body.len() > MAX_MESSAGE_BODY_LEN {
+            // Too large for the one byte SMBus byte count
+            return Err(());
+        }
 
         let packet = MCTPSMBusPacket::new(&mut smbus_header, &base_header, &body);
 
@@ -186,6 +198,11 @@ pub trait SMBusMCTPRequestResponse {
 
         let body = MCTPMessageBody::new(&header, *message_header, message_data, None);
 
+        if body.len() > MAX_MESSAGE_BODY_LEN {
+            // Too large for the one byte SMBus byte count
+            return Err(());
+        }
+
         let packet = MCTPSMBusPacket::new(&mut smbus_header, &base_header, &body);
 
         Ok(packet.to_raw_bytes(buf))
@@ -206,6 +223,11 @@ pub trait SMBusMCTPRequestResponse {
             MCTPMessageBodyHeader::new(false, MessageType::VendorDefinedIANA);
 
         let body = MCTPMessageBody::new(&header, *message_header, message_data, None);
+
+        if body.len() > MAX_MESSAGE_BODY_LEN {
+            // Too large for the one byte SMBus byte count
+            return Err(());
+        }
 
         let packet = MCTPSMBusPacket::new(&mut smbus_header, &base_header, &body);
 
